@@ -237,6 +237,36 @@ impl<'p> Ref<'p> {
                     other => other,
                 }
             }
+            G::Time(g) => {
+                // time(G): G's first solution only (the node answers once); the elapsed time is
+                // written after the attempt, whether or not it succeeded
+                if g.has_cut() {
+                    return self.halt("outside: cut inside time");
+                }
+                self.token += 1;
+                let tok = self.token;
+                let first: std::cell::RefCell<Option<Sub>> = std::cell::RefCell::new(None);
+                let mut found = |_: &mut Ref<'p>, s1: &Sub| {
+                    *first.borrow_mut() = Some(s1.clone());
+                    R::Unwind(tok)
+                };
+                let r = self.solve(g, s, frame, depth, &mut found);
+                match r {
+                    R::Unwind(t) if t == tok => {
+                        self.out.push(rb::TIMING);
+                        self.stats.outputs += 1;
+                        let s1 = first.borrow_mut().take().unwrap();
+                        k(self, &s1)
+                    }
+                    R::Next => {
+                        self.out.push(rb::TIMING);
+                        self.stats.outputs += 1;
+                        R::Next
+                    }
+                    R::Cut(_) => self.halt("outside: cut inside time"),
+                    other => other,
+                }
+            }
             G::Cut => {
                 self.frames[frame].0 = true;
                 self.stats.cut_executed += 1;
